@@ -43,7 +43,68 @@ def _reaches(a, b) -> bool:
     return False
 
 
+def rule_crash_drops_unfinished_flush(ctx: Ctx) -> None:
+    """C15-2: `_flush_memtable` installs the new SSTable in L0 *before* it suspends for the write latency (reads must find the data while the
+    memtable is being retired).  Until that suspension ends the file is not on disk: a crash in between must take the table out of L0 again,
+    otherwise never-fsynced writes it holds (an unsynced delete or overwrite) survive the crash and mask durable values."""
+    prog = ctx.prog
+    fl = prog.func(LSM, "LSMTree._flush_memtable")
+    ff = ctx.flow(fl)
+    from ..suspend import node_suspension
+    inst = [n_ for n_ in ff.cfg.nodes if n_.kind == "stmt" and any(unparse(k.func).replace(" ", "") == "self._levels[0].append" for k in calls_in(n_.ast))]
+    susp = [n_ for n_ in ff.cfg.nodes if n_.kind in ("stmt", "test", "for") and node_suspension(prog, fl, n_)]
+    need(len(inst) == 1 and susp, "C15-2: _flush_memtable no longer installs an SSTable in L0 around a suspension")
+    installs_first = any(not always_before(ctx, fl, lambda x: x is inst[0], lambda x, s_=s_: x is s_) for s_ in susp)
+    cr = prog.func(LSM, "LSMTree.crash")
+    removes = [k for k in calls_in(cr.node) if unparse(k.func).replace(" ", "").startswith("self._levels[") and k.func.attr in ("remove", "pop", "clear")] \
+        + [s_ for s_ in walk_stmts(cr.node.body) if isinstance(s_, (ast.Assign, ast.Delete)) and "self._levels" in unparse(s_.targets[0] if isinstance(s_, ast.Assign) else s_.targets[0])]
+    ok = (not installs_first) or bool(removes)
+    ctx.ob("C15-2", "G2", cr, "crash() drops SSTables whose flush had not finished", ok,
+           "an SSTable installed in L0 before its write latency elapsed is removed again by crash(): the file was never completely written, and the unsynced writes in it must not survive")
+
+
+def rule_hunted(ctx: Ctx) -> None:
+    """Rules distilled from hunted defects.
+    C15-1: an append that was suspended while crash() discarded the log tail must not claim durability afterwards: the WAL counts crashes,
+    `_synced_up_to_sequence = seq` is reached only with an unchanged count, and the tree's put/delete apply to the memtable only then.
+    C15-1: appends complete in log order — an append that does not fsync itself waits behind an fsync in progress.
+    C15-2: crash() forgets the in-flight sequence numbers (their processes may be gone; a leaked number freezes the checkpoint bound)."""
+    prog = ctx.prog
+    ap = prog.func(WAL, "WriteAheadLog.append")
+    af = ctx.flow(ap)
+    dur = [n_ for n_ in af.cfg.nodes if n_.kind == "stmt" and isinstance(n_.ast, ast.Assign) and path_of(n_.ast.targets[0]) == "self._synced_up_to_sequence"]
+    ok = len(dur) == 1 and (af.holds_at(dur[0], Fact("eq", "crash_count", "self._crash_count")) or af.holds_at(dur[0], Fact("eq", "self._crash_count", "crash_count")))
+    cr = prog.func(WAL, "WriteAheadLog.crash")
+    ok = ok and any(increment_of(s_, "self._crash_count") == 1 for s_ in walk_stmts(cr.node.body))
+    ctx.ob("C15-1", "G5", ap, dur[0].ast if dur else None, ok, "WriteAheadLog.append marks an entry durable only if no crash() happened since the append began (crash count read before the first suspension, compared after the fsync; crash() advances it)")
+    for q, val in (("LSMTree.put", "value"), ("LSMTree.delete", "_TOMBSTONE")):
+        fn = prog.func(LSM, q)
+        ff = ctx.flow(fn)
+        mp = [n_ for n_ in ff.cfg.nodes if n_.kind == "stmt" and any(isinstance(y, ast.YieldFrom) and path_of(getattr(y.value, "func", None)) == "self._memtable.put" for y in ast.walk(n_.ast))]
+        bad = []
+        for p_ in enumerate_paths(ff, ff.cfg.entry, stop=lambda x: mp and x is mp[0]):
+            if not (p_.end == "stop" and mp and p_.nodes[-1] is mp[0]):
+                continue
+            has_wal = p_.decided(lambda t: t == "self._walisnotNone")
+            crashed = p_.decided(lambda t: t in ("crash_count!=self._crash_count", "self._crash_count!=crash_count"))
+            if has_wal is True and crashed is not False:
+                bad.append(p_.describe()[-80:])
+        ctx.ob("C15-1", "G5", fn, mp[0].ast if mp else None, len(mp) == 1 and not bad, f"{q}: the memtable is written only after the WAL append returned *and* no crash happened during it (a write that died with the power loss is not applied to the post-recovery memtable)")
+    busy_set = [n_ for n_ in af.cfg.nodes if n_.kind == "stmt" and isinstance(n_.ast, ast.Assign) and path_of(n_.ast.targets[0]) == "self._sync_busy_until_ns"]
+    from ..suspend import node_suspension
+    fs = [n_ for n_ in af.cfg.nodes if n_.kind == "stmt" and node_suspension(prog, ap, n_) and "self._sync_latency" in unparse(n_.ast)]
+    waits = [n_ for n_ in af.cfg.nodes if n_.kind == "stmt" and node_suspension(prog, ap, n_) and af.holds_at(n_, Fact("lt", "self.now.nanoseconds", "self._sync_busy_until_ns"))]
+    ok2 = len(busy_set) == 1 and len(fs) == 1 and not always_before(ctx, ap, lambda x: x is busy_set[0], lambda x: x is fs[0]) and len(waits) == 1
+    ctx.ob("C15-1", "G5", ap, busy_set[0].ast if busy_set else None, ok2, "WriteAheadLog.append: an fsync records when it will finish before it suspends, and an append that does not fsync itself waits until then when one is in progress — "
+           "appends return in sequence order (the tree applies writes in return order; recovery replays in sequence order)")
+    lc = prog.func(LSM, "LSMTree.crash")
+    clr = [k for k in calls_in(lc.node) if path_of(k.func) == "self._wal_in_flight.clear"]
+    ctx.ob("C15-2", "G2", lc, clr[0] if clr else None, len(clr) == 1, "LSMTree.crash() forgets the sequence numbers of writes that were in flight (else the checkpoint bound stays below every later write and the log is never truncated again)")
+
+
 def run(ctx: Ctx) -> None:
+    ctx.guarded(rule_hunted)
+    ctx.guarded(rule_crash_drops_unfinished_flush)
     prog = ctx.prog
     # ---------------------------------------------------------------- WAL
     ap = prog.func(WAL, "WriteAheadLog.append")
@@ -218,28 +279,30 @@ def run(ctx: Ctx) -> None:
 
 
 MUTANTS = [
+    ("crash-keeps-in-flight-sequences", LSM, "        self._wal_in_flight.clear()\n", "", "C15-2"),
+    ("append-claims-durability-across-crash", WAL, "            if crash_count != self._crash_count:\n                # Power was lost mid-fsync: this sync never completed, so it\n                # must not mark the (discarded) entry as durable.\n                return seq\n", "", "C15-1"),
+    ("put-applies-after-crash", LSM, "            if crash_count != self._crash_count:\n                # Power was lost mid-write: the write died with the process.\n                # If its log entry was already durable, recovery replayed it.\n                return\n", "", "C15-1"),
+    ("append-overtakes-fsync", WAL, "        elif self.now.nanoseconds < self._sync_busy_until_ns:", "        elif False:", "C15-1"),
     ("memtable-put-applies-after-latency", MEMT, "        self._data[key] = value\n        self._total_writes += 1\n        self._total_bytes_written += 64  # estimate\n        yield self._write_latency\n", "        self._total_writes += 1\n        self._total_bytes_written += 64  # estimate\n        yield self._write_latency\n        self._data[key] = value\n", "C15-3"),
     ("recover-flushes-mid-replay", LSM, "                self._memtable.put_sync(entry.key, entry.value)\n            wal_recovered", "                if self._memtable.put_sync(entry.key, entry.value):\n                    self._flush_memtable_sync()\n            wal_recovered", "C15-4"),
-    ("durable-before-sync", WAL, "            yield self._sync_latency\n            self._synced_up_to_sequence = seq\n", "            self._synced_up_to_sequence = seq\n            yield self._sync_latency\n", "C15-1"),
-    ("durable-without-policy", WAL, "        if self._sync_policy.should_sync(self._writes_since_sync, time_since_sync):\n            yield self._sync_latency\n            self._synced_up_to_sequence = seq", "        if True:\n            yield self._sync_latency\n            self._synced_up_to_sequence = seq", "C15-1"),
+    ("durable-before-sync", WAL, "            yield self._sync_latency\n            if crash_count != self._crash_count:\n                # Power was lost mid-fsync: this sync never completed, so it\n                # must not mark the (discarded) entry as durable.\n                return seq\n            self._synced_up_to_sequence = seq\n", "            self._synced_up_to_sequence = seq\n            yield self._sync_latency\n            if crash_count != self._crash_count:\n                return seq\n", "C15-1"),
+    ("durable-without-policy", WAL, "        if self._sync_policy.should_sync(self._writes_since_sync, time_since_sync):\n            self._sync_busy_until_ns", "        if True:\n            self._sync_busy_until_ns", "C15-1"),
     ("sequence-not-advanced", WAL, "        seq = self._next_sequence\n        self._next_sequence += 1\n\n        now_s = self.now.to_seconds()\n        entry = WALEntry(", "        seq = self._next_sequence\n\n        now_s = self.now.to_seconds()\n        entry = WALEntry(", "C15-1"),
-    ("entry-logged-after-latency", WAL, ["        self._entries.append(entry)\n\n        # Estimate 64 bytes per entry", "        yield self._write_latency\n\n        # Check sync policy"],
-     ["        # Estimate 64 bytes per entry", "        yield self._write_latency\n        self._entries.append(entry)\n\n        # Check sync policy"], "C15-1"),
+    ("entry-logged-after-latency", WAL, ["        self._entries.append(entry)\n\n        # Estimate 64 bytes per entry", "        yield self._write_latency\n        if crash_count != self._crash_count:"], ["        # Estimate 64 bytes per entry", "        yield self._write_latency\n        self._entries.append(entry)\n        if crash_count != self._crash_count:"], "C15-1"),
     ("crash-keeps-strictly-below", WAL, "            e for e in self._entries if e.sequence_number <= self._synced_up_to_sequence", "            e for e in self._entries if e.sequence_number < self._synced_up_to_sequence", "C15-2"),
     ("crash-keeps-everything", WAL, "            e for e in self._entries if e.sequence_number <= self._synced_up_to_sequence", "            e for e in self._entries if e.sequence_number <= self._next_sequence", "C15-2"),
     ("truncate-off-by-one", WAL, "        self._entries = [e for e in self._entries if e.sequence_number > up_to_sequence]", "        self._entries = [e for e in self._entries if e.sequence_number > up_to_sequence + 1]", "C15-2"),
     ("recover-unsorted", WAL, "        result = sorted(self._entries, key=lambda e: e.sequence_number)", "        result = list(self._entries)", "C15-4"),
     ("recover-consumes-log", WAL, "        self._entries_recovered = len(result)\n        return result", "        self._entries_recovered = len(result)\n        self._entries.clear()\n        return result", "C15-4"),
-    ("put-memtable-before-wal", LSM, "        self._logical_data[key] = value\n\n        # WAL append\n        if self._wal is not None:\n            seq = self._wal._next_sequence\n            self._wal_in_flight.add(seq)\n            yield from self._wal.append(key, value)\n            self._wal_in_flight.discard(seq)\n            self._total_wal_writes += 1\n\n        # Memtable put\n        is_full = yield from self._memtable.put(key, value)\n",
-     "        self._logical_data[key] = value\n\n        # Memtable put\n        is_full = yield from self._memtable.put(key, value)\n\n        # WAL append\n        if self._wal is not None:\n            seq = self._wal._next_sequence\n            self._wal_in_flight.add(seq)\n            yield from self._wal.append(key, value)\n            self._wal_in_flight.discard(seq)\n            self._total_wal_writes += 1\n", "C15-3"),
-    ("put-inflight-cleared-early", LSM, "            self._wal_in_flight.add(seq)\n            yield from self._wal.append(key, value)\n            self._wal_in_flight.discard(seq)", "            self._wal_in_flight.add(seq)\n            self._wal_in_flight.discard(seq)\n            yield from self._wal.append(key, value)", "C15-3"),
-    ("delete-not-tracked", LSM, "            self._wal_in_flight.add(seq)\n            yield from self._wal.append(key, _TOMBSTONE)\n            self._wal_in_flight.discard(seq)", "            yield from self._wal.append(key, _TOMBSTONE)", "C15-3"),
+    ("put-memtable-before-wal", LSM, "        self._logical_data[key] = value\n\n        # WAL append\n        if self._wal is not None:\n            seq = self._wal._next_sequence\n            self._wal_in_flight.add(seq)\n            crash_count = self._crash_count\n            yield from self._wal.append(key, value)\n            self._wal_in_flight.discard(seq)\n            if crash_count != self._crash_count:\n                # Power was lost mid-write: the write died with the process.\n                # If its log entry was already durable, recovery replayed it.\n                return\n            self._total_wal_writes += 1\n\n        # Memtable put\n        is_full = yield from self._memtable.put(key, value)\n", "        self._logical_data[key] = value\n\n        # Memtable put\n        is_full = yield from self._memtable.put(key, value)\n\n        # WAL append\n        if self._wal is not None:\n            seq = self._wal._next_sequence\n            self._wal_in_flight.add(seq)\n            crash_count = self._crash_count\n            yield from self._wal.append(key, value)\n            self._wal_in_flight.discard(seq)\n            if crash_count != self._crash_count:\n                return\n            self._total_wal_writes += 1\n", "C15-3"),
+    ("put-inflight-cleared-early", LSM, "            self._wal_in_flight.add(seq)\n            crash_count = self._crash_count\n            yield from self._wal.append(key, value)\n            self._wal_in_flight.discard(seq)", "            self._wal_in_flight.add(seq)\n            self._wal_in_flight.discard(seq)\n            crash_count = self._crash_count\n            yield from self._wal.append(key, value)", "C15-3"),
+    ("delete-not-tracked", LSM, "            self._wal_in_flight.add(seq)\n            crash_count = self._crash_count\n            yield from self._wal.append(key, _TOMBSTONE)\n            self._wal_in_flight.discard(seq)", "            crash_count = self._crash_count\n            yield from self._wal.append(key, _TOMBSTONE)", "C15-3"),
     ("flush-bound-after-suspension", LSM, "            self._wal.truncate(wal_bound)", "            self._wal.truncate(self._wal._next_sequence - 1)", "C15-3"),
     ("flush-bound-computed-late", LSM, ["        wal_bound = self._wal_checkpoint_bound()\n\n        # Flush to SSTable", "        # Truncate WAL\n        if self._wal is not None:\n            self._wal.truncate(wal_bound)"],
      ["        # Flush to SSTable", "        # Truncate WAL\n        if self._wal is not None:\n            wal_bound = self._wal_checkpoint_bound()\n            self._wal.truncate(wal_bound)"], "C15-3"),
     ("checkpoint-bound-ignores-inflight", LSM, "        return min(self._wal_in_flight, default=self._wal._next_sequence) - 1", "        return self._wal._next_sequence - 1", "C15-3"),
     ("flush-ignores-crash", LSM, "        if crash_count != self._crash_count:\n            # Power was lost mid-flush", "        if False:\n            # Power was lost mid-flush", "C15-3"),
-    ("crash-keeps-immutables", LSM, "        self._immutable_memtables.clear()\n\n        # Crash WAL", "        # Crash WAL", "C15-2"),
+    ("crash-keeps-immutables", LSM, "        self._immutable_memtables.clear()\n\n        # Writes suspended in their WAL append", "        # Writes suspended in their WAL append", "C15-2"),
     ("crash-epoch-not-advanced", LSM, "        self._crash_count += 1\n", "", "C15-2"),
     ("recover-replays-keys-only", LSM, "                self._memtable.put_sync(entry.key, entry.value)", "                self._memtable.put_sync(entry.key, entry.key)", "C15-4"),
 ]
